@@ -20,8 +20,9 @@ N == Len(TraceLog)
 
 VARIABLES l,        \* position in TraceLog
           psz,      \* bytes per page of the run being validated
-          aligned   \* every pointer / page seen so far was page-aligned and well-formed
-tvars == <<vars, l, psz, aligned>>
+          aligned,  \* every pointer / page seen so far was page-aligned and well-formed
+          bctx      \* context that owns each buffer (aligned with bufs): Context.buffers bookkeeping
+tvars == <<vars, l, psz, aligned, bctx>>
 
 ASSUME HWInit
 
@@ -31,7 +32,7 @@ Is(e) == l <= N /\ Ev.e = e /\ l' = l + 1
 TInit ==
   /\ devs = <<>> /\ out = {} /\ limbo = {} /\ nextV = <<>> /\ vown = <<>> /\ pt = <<>>
   /\ bufs = <<>> /\ held = {} /\ devUsed = {} /\ crashed = FALSE
-  /\ l = 1 /\ psz = 1 /\ aligned = TRUE
+  /\ l = 1 /\ psz = 1 /\ aligned = TRUE /\ bctx = <<>>
 
 \* ------------------------------------------------------------ logged table
 LPT(s) == [k \in {<<s[i].pid, s[i].v>> : i \in 1..Len(s)} |->
@@ -41,7 +42,7 @@ NoDupKeys(s) == \A i, j \in 1..Len(s) : i # j => <<s[i].pid, s[i].v>> # <<s[j].p
 WellFormed(s) == \A i \in 1..Len(s) : s[i].voff = 0 /\ s[i].poff = 0 /\ s[i].ok = 1
 Pages(bytes) == ((bytes - 1) \div psz) + 1
 Note(dv) == IF dv = {} THEN TRUE ELSE PrintT(<<"DEVIATION", l, dv>>)
-Seen(s) == aligned' = (aligned /\ WellFormed(s)) /\ UNCHANGED psz
+Seen(s) == aligned' = (aligned /\ WellFormed(s)) /\ UNCHANGED <<psz, bctx>>
 
 \* -------------------------------------------------------------------- calls
 TAlloc ==
@@ -51,9 +52,11 @@ TAlloc ==
          keys == {<<Ev.pid, Ev.v + i>> : i \in 0..(n - 1)} IN
      /\ Ev.v = NextV(Ev.pid)                      \* fresh virtual range right at the cursor
      /\ keys \subseteq DOMAIN t
-     /\ Alloc(Ev.pid, Ev.dev, [i \in 1..n |-> t[<<Ev.pid, Ev.v + i - 1>>].ppn])
-     /\ pt' = t
+     /\ LET ps == [i \in 1..n |-> t[<<Ev.pid, Ev.v + i - 1>>].ppn] IN
+        \/ Alloc(Ev.pid, Ev.dev, ps) /\ pt' = t
+        \/ AllocAliased(Ev.pid, Ev.dev, ps) /\ pt' = t /\ Note({"BuddyCorruptsFreeLists"})
   /\ aligned' = (aligned /\ WellFormed(Ev.pt) /\ Ev.voff = 0) /\ UNCHANGED psz
+  /\ bctx' = Append(bctx, Ev.ctx)
 
 TFree ==
   /\ Is("Free") /\ NoDupKeys(Ev.pt)
@@ -71,7 +74,7 @@ TRemap ==
      /\ \E dv \in SUBSET Deviations :
           /\ Remap(Ev.pid, Ev.v, [i \in 1..n |-> Ev.dev], [i \in 1..n |-> t[<<Ev.pid, Ev.v + i - 1>>].ppn], dv)
           /\ pt' = t /\ Note(dv)
-  /\ aligned' = (aligned /\ WellFormed(Ev.pt) /\ Ev.voff = 0) /\ UNCHANGED psz
+  /\ aligned' = (aligned /\ WellFormed(Ev.pt) /\ Ev.voff = 0) /\ UNCHANGED <<psz, bctx>>
 
 \* Distribute: every page of the range ends up on one of the listed GPUs and the byte counts returned per GPU
 \* agree with where the pages went.  With a single GPU the implementation leaves the buffer where it is.
@@ -93,7 +96,7 @@ TDist ==
              /\ \E dv \in SUBSET Deviations :
                   /\ Remap(Ev.pid, Ev.v, ds, [i \in 1..n |-> t[<<Ev.pid, Ev.v + i - 1>>].ppn], dv)
                   /\ pt' = t /\ Note(dv)
-  /\ aligned' = (aligned /\ WellFormed(Ev.pt) /\ Ev.voff = 0) /\ UNCHANGED psz
+  /\ aligned' = (aligned /\ WellFormed(Ev.pt) /\ Ev.voff = 0) /\ UNCHANGED <<psz, bctx>>
 
 TMig ==
   /\ Is("Mig") /\ NoDupKeys(Ev.pt)
@@ -101,7 +104,7 @@ TMig ==
      /\ <<Ev.pid, Ev.v>> \in DOMAIN t
      /\ PrepareMigration(Ev.pid, Ev.v, Ev.gpu, t[<<Ev.pid, Ev.v>>].ppn)
      /\ pt' = t
-  /\ aligned' = (aligned /\ WellFormed(Ev.pt) /\ Ev.voff = 0) /\ UNCHANGED psz
+  /\ aligned' = (aligned /\ WellFormed(Ev.pt) /\ Ev.voff = 0) /\ UNCHANGED <<psz, bctx>>
 
 \* The real code panicked inside a call.  Accepted only where the specification says the call cannot succeed:
 \* the device is exhausted (legitimately, or because of pages a listed deviation leaked), or the as-implemented
@@ -109,20 +112,34 @@ TMig ==
 TPanic ==
   /\ Is("Panic")
   /\ LET dvBefore == devUsed IN
-     \/ /\ Ev.op = "Alloc" /\ Ev.dev \in DevIds /\ OutOfMemory(Targets(Ev.dev), Pages(Ev.bytes))
+     \/ /\ Ev.op \in {"Alloc", "Launch"} /\ Ev.dev \in DevIds
+        /\ \/ OutOfMemory(Targets(Ev.dev), Pages(Ev.bytes), TRUE)
+           \/ OutOfMemoryBuddy(Targets(Ev.dev), Pages(Ev.bytes), TRUE)
         /\ Note(devUsed' \ dvBefore)
-     \/ /\ Ev.op = "Remap" /\ Ev.dev \in DevIds /\ OutOfMemory(Targets(Ev.dev), Pages(Ev.bytes))
+     \/ /\ Ev.op = "Remap" /\ Ev.dev \in DevIds
+        /\ \/ OutOfMemory(Targets(Ev.dev), Pages(Ev.bytes), FALSE)
+           \/ OutOfMemoryBuddy(Targets(Ev.dev), Pages(Ev.bytes), FALSE)
         /\ Note(devUsed' \ dvBefore)
-     \/ /\ Ev.op = "Dist" /\ OutOfMemory({Ev.gpus[j] : j \in 1..Len(Ev.gpus)}, Pages(Ev.bytes))
+     \/ /\ Ev.op = "Dist" /\ OutOfMemory({Ev.gpus[j] : j \in 1..Len(Ev.gpus)}, Pages(Ev.bytes), FALSE)
         /\ Note(devUsed' \ dvBefore)
-     \/ /\ Ev.op = "Mig" /\ OutOfMemory({Ev.gpu}, 1)
+     \/ /\ Ev.op = "Mig" /\ OutOfMemory({Ev.gpu}, 1, FALSE)
         /\ Note(devUsed' \ dvBefore)
      \/ /\ Ev.op = "Free" /\ Ev.b \in 1..Len(bufs) /\ FreeCrash(Ev.pid, Ev.b)
         /\ Note(devUsed' \ dvBefore)
-  /\ UNCHANGED <<psz, aligned>>
+     \/ /\ Ev.op = "CopyOut" /\ Cardinality({b \in 1..Len(bufs) : ~bufs[b].live /\ bctx[b] = Ev.ctx}) >= 2
+        /\ SweepCrash
+        /\ Note(devUsed' \ dvBefore)
+  /\ UNCHANGED <<psz, aligned, bctx>>
+
+\* A kernel launch (the driver's own allocations were logged as an Alloc before) and a device-to-host copy
+\* leave memory management alone: the table must be exactly what it was.
+TLaunch == Is("Launch") /\ ~crashed /\ NoDupKeys(Ev.pt) /\ LPT(Ev.pt) = pt /\ UNCHANGED vars /\ Seen(Ev.pt)
+TCopyOut == /\ Is("CopyOut") /\ ~crashed /\ NoDupKeys(Ev.pt) /\ LPT(Ev.pt) = pt
+            /\ Ev.b \in LiveBufs /\ bufs[Ev.b].pid = Ev.pid
+            /\ UNCHANGED vars /\ Seen(Ev.pt)
 
 \* end of a history: nothing to check beyond the invariants
-TEnd == Is("End") /\ UNCHANGED <<vars, psz, aligned>>
+TEnd == Is("End") /\ UNCHANGED <<vars, psz, aligned, bctx>>
 
 \* concatenated traces: a fresh driver on a freshly described platform
 TReset ==
@@ -132,9 +149,9 @@ TReset ==
                  mem |-> {Ev.devs[i].mem[j] : j \in 1..Len(Ev.devs[i].mem)}]]
   /\ out' = {} /\ limbo' = {} /\ nextV' = <<>> /\ vown' = <<>> /\ pt' = <<>>
   /\ bufs' = <<>> /\ held' = {} /\ devUsed' = {} /\ crashed' = FALSE
-  /\ psz' = Ev.psz /\ aligned' = TRUE
+  /\ psz' = Ev.psz /\ aligned' = TRUE /\ bctx' = <<>>
 
-TNext == TAlloc \/ TFree \/ TRemap \/ TDist \/ TMig \/ TPanic \/ TEnd \/ TReset
+TNext == TAlloc \/ TFree \/ TRemap \/ TDist \/ TMig \/ TLaunch \/ TCopyOut \/ TPanic \/ TEnd \/ TReset
 
 TSpec == TInit /\ [][TNext]_tvars
 
